@@ -63,10 +63,11 @@ def trace():
     W._record_exp(ns, store)
     shim.load('odak/learn/wave/util.py', ['wavenumber'], ns)
     shim.load('odak/learn/wave/classical.py', ['get_seperable_impulse_response_fresnel_kernel'], ns)
-    # the function unsqueezes a 0-d element (y[n // 2].unsqueeze(-1)); the shim returns bare scalars for
-    # element indexing, so give scalars the one-element-tensor view for the duration of this trace only
-    had = hasattr(shim.E, 'unsqueeze')
-    if not had: shim.E.unsqueeze = lambda s, d: shim.wrap([s])
+    # the function reshapes a 0-d element (y[n // 2].unsqueeze(-1) / .view(1, 1)); the shim returns bare scalars for element
+    # indexing, so give scalars the one-element-tensor view for the duration of this trace only
+    added = []
+    for nm, fn in (('unsqueeze', lambda s, d: shim.wrap([s])), ('view', lambda s, *a: shim.wrap([s]).reshape(*a)), ('reshape', lambda s, *a: shim.wrap([s]).reshape(*a))):
+        if not hasattr(shim.E, nm): setattr(shim.E, nm, fn); added.append(nm)
     try:
         H, h, h_x, h_y = ns['get_seperable_impulse_response_fresnel_kernel'](NX, NY, dx=dx, wavelength=lam, distance=z, device='cpu', scale=1, aperture_samples=[1, 1, 1, 1])
         store1 = list(store); del store[:]
@@ -79,7 +80,7 @@ def trace():
         info['ts2_terms'] = [nterm, nterm]
         store[:] = store1
     finally:
-        if not had: del shim.E.unsqueeze
+        for nm in added: delattr(shim.E, nm)
     if len(store) != 3: raise shim.TraceError('separable impulse response: %d exponentials' % len(store))
     px, py, pc = [W._phase_of(a) for a in store]
     if px.size != NX or py.size != NY or pc.size != 1: raise shim.TraceError('separable impulse response: exponent shapes %s %s %s' % (px.shape, py.shape, pc.shape))
@@ -108,7 +109,80 @@ def trace():
             g.add('nir_ph_%d_%d' % (i, j), A4, ph[i, j])
             g.add('nir_re_%d_%d' % (i, j), A4, e.re); g.add('nir_im_%d_%d' % (i, j), A4, e.im)
     info['nir_pipeline'] = opshim.coq(W._name_lits(term))
+    # ------------------------------------------------------------ numpy band-limit mask (the torch mask is bl_mask_i_j of Run.GenWaveK)
+    ns = opshim.namespace()
+    shim.load('odak/wave/classical.py', ['band_limited_angular_spectrum'], ns, expose={'band_limited_angular_spectrum': ['H_filter']})
+    ns['band_limited_angular_spectrum'](opshim.fvar('u', shape=(NX, NY)), k, z, dx, lam)
+    M = ns['__exposed__']['band_limited_angular_spectrum.H_filter']
+    if tuple(M.shape) != (NX, NY): raise shim.TraceError('numpy band-limit mask shape %s' % (M.shape,))
+    for i in range(NX):
+        for j in range(NY):
+            if not isinstance(M[i, j], shim.B): raise shim.TraceError('numpy band-limit mask is not boolean')
+            g.add('nblm_%d_%d' % (i, j), A3, M[i, j])
     return g, info
+
+
+def _collect(e, op, acc, seen):
+    """sub-expressions of e with the given operator (deduplicated by their Coq text)"""
+    if isinstance(e, shim.CE):
+        _collect(e.re, op, acc, seen); _collect(e.im, op, acc, seen); return
+    if not isinstance(e, (shim.E, shim.B)) or id(e) in seen: return
+    seen.add(id(e))
+    if isinstance(e, shim.E) and e.op == op:
+        key = shim.coq(e.a[0])
+        if key not in [k for k, _ in acc]: acc.append((key, e.a[0]))
+    for x in e.a:
+        _collect(x, op, acc, seen)
+
+
+def kernels():
+    """Run.GenWaveK for this property: the per-pixel transfer functions of both APIs under the names the shared tie files
+    Wave_TieK_{as,tf,nas,ntf} use.  Same method as tracer/recipes/wave.py (argument of the exponential = the phase), except for
+    the torch band-limited kernel, whose 0/1 mask and phase are read off the finished kernel (the condition of its only
+    conditional, the argument of its only cosine), so that the trace does not depend on HOW the kernel is assembled."""
+    g = Gen()
+    dx, lam, z, k = shim.var('dx'), shim.var('lam'), shim.var('z'), shim.var('k')
+    NU, NV, KARGS = W.NU, W.NV, W.KARGS
+    for tag, fname in (('as', 'get_angular_spectrum_kernel'), ('tf', 'get_transfer_function_fresnel_kernel')):
+        ns = shim.base_namespace(); store = []
+        W._record_exp(ns, store)
+        shim.load('odak/learn/wave/util.py', ['wavenumber', 'generate_complex_field'], ns)
+        shim.load('odak/learn/wave/classical.py', [fname], ns)
+        H = ns[fname](NU, NV, dx=dx, wavelength=lam, distance=z, device='cpu')
+        if tuple(H.shape) != (NU, NV) or not store: raise shim.TraceError('%s: kernel shape %s / no exponential' % (fname, H.shape))
+        ph = shim._np.broadcast_to(W._phase_of(store[-1]), (NU, NV))
+        for i in range(NU):
+            for j in range(NV):
+                g.add('%s_ph_%d_%d' % (tag, i, j), KARGS, ph[i, j])
+                g.add('%s_re_%d_%d' % (tag, i, j), KARGS, H[i, j].re); g.add('%s_im_%d_%d' % (tag, i, j), KARGS, H[i, j].im)
+    ns = shim.base_namespace()
+    shim.load('odak/learn/wave/util.py', ['wavenumber', 'generate_complex_field'], ns)
+    shim.load('odak/learn/wave/classical.py', ['get_band_limited_angular_spectrum_kernel'], ns)
+    H = ns['get_band_limited_angular_spectrum_kernel'](NU, NV, dx=dx, wavelength=lam, distance=z, device='cpu')
+    if tuple(H.shape) != (NU, NV): raise shim.TraceError('band-limited kernel shape %s' % (H.shape,))
+    for i in range(NU):
+        for j in range(NV):
+            e = shim.CE.lift(H[i, j])
+            conds, coss = [], []
+            _collect(e, 'ite', conds, set()); _collect(e, 'cos', coss, set())
+            if len(conds) != 1 or not isinstance(conds[0][1], shim.B) or len(coss) != 1:
+                raise shim.TraceError('band-limited kernel pixel: %d conditionals, %d cosines (expected one mask and one phase)' % (len(conds), len(coss)))
+            g.add('bl_mask_%d_%d' % (i, j), KARGS, conds[0][1]); g.add('bl_ph_%d_%d' % (i, j), KARGS, coss[0][1])
+            g.add('bl_re_%d_%d' % (i, j), KARGS, e.re); g.add('bl_im_%d_%d' % (i, j), KARGS, e.im)
+    for tag, fname in (('nas', 'angular_spectrum'), ('ntf', 'transfer_function_fresnel'), ('nbl', 'band_limited_angular_spectrum')):
+        ns = opshim.namespace(); store = []
+        W._record_exp(ns, store)
+        shim.load('odak/wave/classical.py', [fname], ns)
+        term = ns[fname](opshim.fvar('u', shape=(NU, NV)), k, z, dx, lam)
+        lits = W._literals(term)
+        if len(lits) != 1 or tuple(lits[0].shape) != (NU, NV) or not store: raise shim.TraceError('%s: kernel literal / exponential' % fname)
+        ph = shim._np.broadcast_to(W._phase_of(store[-1]), (NU, NV))
+        for i in range(NU):
+            for j in range(NV):
+                e = shim.CE.lift(lits[0][i, j])
+                g.add('%s_ph_%d_%d' % (tag, i, j), ['k'] + KARGS, ph[i, j])
+                g.add('%s_re_%d_%d' % (tag, i, j), ['k'] + KARGS, e.re); g.add('%s_im_%d_%d' % (tag, i, j), ['k'] + KARGS, e.im)
+    return g
 
 
 PIPE_HEADER = ('(* GENERATED on every run (C04): operator structure around the sampled impulse responses. *)\n'
